@@ -245,12 +245,8 @@ impl<CharIter: Iterator<Item = char>> Lexer<CharIter> {
                                 break;
                             }
                         },
-                        None => {
-                            return located_error!(
-                                SyntaxError::InvalidIdentifier(identifier_str.clone()),
-                                Some(self.location)
-                            );
-                        }
+                        // the end of the input ends the identifier like a delimiter does
+                        None => break,
                     }
                 },
                 false => {
